@@ -27,6 +27,14 @@ CHECKS = {
                 text="HFInterp.tla states the five published piecewise functions with exact rationals; TLC evaluates as ASSUMEs, over a 12-triple grid (symmetric, asymmetric, inverted, one-sided, null, non-dyadic), the anchors (neutral at 0, up at +1, down at -1), value continuity at every seam, slope continuation of code 2, first/second-derivative continuity of code 4p, and A(alpha0)*AInv(alpha0)=Id6 for alpha0 in {1/2,1,2} with AInv transcribed from pyhf's literal (which is value/C1/C2 continuity of code 4). MC_HFInterp.tla is the state machine of one interpolator object under calls of varying alpha-set shape and backend switches (hidden state: cached shape, backend tag); TLC checks CachesMatchAtUse and that the branch each class takes (comparison operators as coded) yields the published value for every comparison outcome. A seeded share of all histories is replayed on the real classes: exact/symbolic value, bit-equality with a fresh interpolator, agreement of vectorised and scalar classes, continuity at floating-point neighbours of the breakpoints.",
                 note="trusted: TLC, mpmath pow/log; alpha restricted to a 15-point rational grid plus nextafter/subnormal neighbours of the breakpoints; triples from the 12-point grid; code-4 core compared through the specification's AInv",
                 technique="TLA+ ASSUMEs over exact rationals + TLC history machine + replay of TLC behaviours"),
+    "C05": dict(engine="fit", design="4/C05",
+                text="Fit.tla is the fit pipeline as a state machine (validate, shim strip-or-pass, nondeterministic but constrained minimiser, success assertion, stitch); TLC checks InBounds, FixedHeld, FreeFromMinimiser (stitch is the inverse of strip for every fixed mask), NoSuccessNoReturn exhaustively for 3 parameters. FitClosed.tla computes exact rational optima of two counting families. Binding B: hook H4 records every real fit (what shim received/produced, what the minimiser returned, what the caller got) and TLC validates each trace against TraceFit.tla in the order lane (exact comparisons of observed floats), including the honest-objective clause (re-evaluation through Model.logpdf). Binding A: real fits over optimiser x do_grad x do_stitch x backend must attain the exact optimum on the closed-form families and beat every point of the competitor set (the minimiser's choice set of Fit.tla) on a 3-parameter nuisance model. Protocol clauses are model-checked; global optimality is explored, not decided (DESIGN section 5).",
+                note="optimality beyond closed forms / finite competitor sets is not decided; tolerances: SLSQP 1e-5+1e-7|f|, MIGRAD 1e-3 (1e-2 at a bound optimum), calibrated on the unchanged tree and frozen; KF-C05-allfixed is a recorded finding",
+                technique="TLA+ protocol state machine (TLC) + TLC validation of hook traces (order lane) + closed-form replay"),
+    "C11": dict(engine="backend", design="4/C11",
+                text="Backend.tla models the global backend state and the weak-reference callback registry; set_backend is three separate steps (swap, fire, setup). TLC explores all interleavings of object creation, deletion and switches over 4 backends x 2 precisions x 2 optimisers x default flag with <=3 objects and checks StaleFree, DeadNeverCalled, EventIffChanged, AllLiveCalled, NoDeadAfterFire and the action property DefaultUntouchedUnlessAsked. Binding A: TLC -simulate behaviours over 8 object kinds are stepped through one long-lived pyhf process; after every step the global state and the raw registry length are compared with the specification's post-state and every live model/interpolator/viewer is compared bit-exactly with a fresh one (tensor type too), fits at the end. Binding B: hooks H1/H2 record swap/trigger/call/flush/subscribe events of the same executions and TLC validates every trace against TraceBackend.tla (inferring the unlogged deaths from the logged liveness bits).",
+                note="trusted: gc.collect() kills dropped objects; object kinds of the replay are representative; jit caches of opt_jax are exercised only through the fits at the end of behaviours",
+                technique="TLC exhaustive interleavings + replay of simulated behaviours + TLC trace validation of hook events"),
     "C20": dict(engine="hfvalidity", design="4/C20", level="fault_enumeration",
                 text="MC_HFValidity.tla injects every single structural fault of the classes the property lists (duplicate channel/sample/modifier, sample and modifier-data length, bin-wise modifier shared across bin counts, conflicting constraint class for one name, override of wrong length, undefined POI, lumi without settings; thorough: pairs) at every applicable position of every small well-formed specification; TLC proves each faulty specification violates the property's well-formedness predicate WF and each unfaulted one satisfies it (so refusal is never demanded of a consistent spec); the faulty specifications are replayed through pyhf.Model and Workspace.model and must be refused with an exception class defined in pyhf.exceptions. Fault enumeration is the natural level: the property quantifies over fault classes x positions.",
                 note="WF in MC_HFValidity.tla is my formalisation of 'structurally inconsistent'; a staterror name reused by the same sample across channels is deliberately not injected (coherent per-bin model in pyhf, see DESIGN.md); bounded by <=2 placements, 2 channels x 2 samples",
@@ -71,6 +79,10 @@ def build():
              "serves_properties": ["C01", "C02", "C10", "C12"], "kind_free_text": "TLA+ reference model of pyhf.Model (definition layer + implementation-shaped layer), TLC exhaustive check, replay of TLC states into pyhf"},
             {"name": "hfinterp", "path": "spec/HFInterp.tla spec/MC_HFInterp.tla harness/checks/c03.py harness/interp.py",
              "serves_properties": ["C03"], "kind_free_text": "exact-rational ASSUMEs on the interpolation formulas, interpolator history machine, replay on the real classes"},
+            {"name": "fit", "path": "spec/Fit.tla spec/FitClosed.tla spec/TraceFit.tla harness/checks/c05.py harness/fit_replay.py harness/tracecheck.py harness/lanes.py",
+             "serves_properties": ["C05"], "kind_free_text": "fit protocol state machine, exact closed-form optima, TLC trace validation of H4 hook records"},
+            {"name": "backend", "path": "spec/Backend.tla spec/MC_Backend.tla spec/TraceBackend.tla harness/checks/c11.py harness/backend_replay.py harness/tracecheck.py",
+             "serves_properties": ["C11"], "kind_free_text": "backend/event-registry state machine, simulated behaviours replayed, hook traces validated by TLC"},
             {"name": "hfvalidity", "path": "spec/MC_HFValidity.tla harness/checks/c20.py harness/validity.py",
              "serves_properties": ["C20"], "kind_free_text": "TLA+ fault injectors over the HFModel specification space, replayed into pyhf.Model / Workspace.model"},
         ],
